@@ -269,8 +269,10 @@ def profile_for(pid, tier):
         G["kinds"]["mask"] = 6
         P["argchange"] = 0.7
     elif pid == "C15":
-        G["root_kinds"] = {"dimap": 4, "map": 2, "contramap": 2, "static": 1}
-        P["argchange"] = 0.7
+        G["root_kinds"] = {"dimap": 8, "map": 2, "contramap": 2, "static": 1}
+        G["post_xformed"] = 0.9
+        P["argchange"] = 0.8
+        P["ops"].update({"update": 8, "empty_edit": 3})
     elif pid == "C16":
         G["root_kinds"] = {"masked_iterate": 3, "masked_iterate_final": 3, "vmap": 1}
         G["kinds"]["masked_iterate"] = 3
